@@ -9,6 +9,7 @@ groups + visgroups, fixup indexes), plus parse / instance-collapse operations in
 from __future__ import annotations
 
 import gc
+import itertools
 
 from srctools import Vec, Matrix
 from srctools.keyvalues import Keyvalues
@@ -77,6 +78,8 @@ def apply(st: St, op: list) -> None:
             st.ents.append(e)
         elif k == 'create':
             st.ents.append(v0.create_ent('a'))
+        elif k == 'create_node':
+            st.ents.append(v0.create_ent('info_node', nodeid=op[1]))     # a node ID requested through the constructor's keys
         elif k == 'remove':
             st.ents[op[1]].remove()
         elif k == 'add':
@@ -119,6 +122,14 @@ def apply(st: St, op: list) -> None:
                 st.inst = Instance('inst', 'f.vmf', Vec(), Matrix())
             st.n_same = getattr(st, 'n_same', 0) + 1
             collapse_one(v0, st.inst, file)
+        elif k == 'collapse_all':
+            # the whole-map entry point: func_instance entities placed in the map are found, removed and expanded
+            from srctools.instancing import collapse_all
+            from srctools.filesys import VirtualFileSystem
+            for n in range(op[1]):
+                v0.create_ent('func_instance', file='f.vmf', targetname=f'i{n}', origin=f'{n * 64} 0 0', angles='0 0 0')
+            collapse_all(v0, VirtualFileSystem({'f.vmf': TEMPLATE}))
+            gc.collect()
         elif k == 'setkey':
             st.ents[op[1]][op[2]] = op[3]
         elif k == 'deltuple':
@@ -306,15 +317,24 @@ def _node_keys(e) -> list:
     return sorted((k, v) for k, v in e._keys.items() if k.casefold() in ('nodeid', 'health'))
 
 
+def _scalars(obj) -> list:
+    return sorted((k, repr(x)) for k, x in vars(obj).items() if k not in ('id', 'hidden', 'vis_shown', 'vis_auto_shown', 'logical_pos', 'comments')
+                  and type(x) in (bool, int, str, float, type(None)))
+
+
 def vis_shape(tree) -> list:
     """Nested form for the canonical state: copies recurse into children, so [1[2]] and [1, 2] have different futures."""
     return [[g.id, vis_shape(g.child_groups)] for g in tree]
 
 
+ENT_CORE_OPS = {'ent', 'create', 'create_node', 'remove', 'add', 'drop', 'copy', 'nodeid', 'delnode', 'collapse', 'collapse_all', 'parse'}
+
+
 class Model(bfs.Model):
-    def __init__(self, part: str, maxh: int) -> None:
+    def __init__(self, part: str, maxh: int, core_only: bool = False) -> None:
         self.part = part
         self.maxh = maxh
+        self.core_only = core_only      # the deepest level of the entity model is explored over the core operations only
 
     def build(self, history: list) -> St:
         st = St()
@@ -336,6 +356,7 @@ class Model(bfs.Model):
                 for d in (-1, 0, -5, 1, 2, 'live'):
                     ops.append(['ent', d])
                 ops.append(['create'])
+                ops.append(['create_node', '1'])
             for i in live:
                 e = st.ents[i]
                 if _in_map(e):
@@ -360,6 +381,7 @@ class Model(bfs.Model):
                     ops.append(['parse', name])
             ops.append(['collapse'])
             ops.append(['collapse_same'])
+            ops.append(['collapse_all', 2])
             for i, e in enumerate(st.ents):
                 if e is not None:
                     if 'health' not in e:
@@ -368,6 +390,9 @@ class Model(bfs.Model):
                         ops.append(['deltuple', i])
             ops.append(['ctor_fails', 'ent', -1])
             ops.append(['ctor_fails', 'ent', 1])
+            if self.core_only:
+                ops = [o for o in ops if o[0] in ENT_CORE_OPS and not (o[0] == 'ent' and o[1] in (0, -5, 2)) and not (o[0] == 'nodeid' and o[2] == '2')
+                       and not (o[0] == 'copy' and o[3] == -1)]
         elif p == 'solid':
             live = [i for i, s in enumerate(st.solids) if s is not None]
             if len(st.solids) < self.maxh:
@@ -463,7 +488,8 @@ class Model(bfs.Model):
                         sorted(vmf.node_id._used), vmf.node_id.search_pos,
                         [(e.id, _node_keys(e), [(s.id, [f.id for f in s.sides]) for s in e.solids]) for e in vmf.entities],
                         [(s.id, [f.id for f in s.sides]) for s in vmf.brushes], sorted(vmf.groups), vis_shape(vmf.vis_tree), vmf.spawn.id))
-        out.append([(None if e is None else (e.id, _in_map(e), _node_keys(e))) for e in st.ents])
+        # (plus every other scalar attribute of the entity object: a cached number kept beside the keys is allocator state too)
+        out.append([(None if e is None else (e.id, _in_map(e), _node_keys(e), _scalars(e))) for e in st.ents])
         out.append([(None if s is None else (s.id, _brush_in_map(s), [f.id for f in s.sides])) for s in st.solids])
         out.append([None if g is None else [g.id, vis_shape(g.child_groups)] for g in st.vis])
         out.append([g.id for g in st.groups])
@@ -513,6 +539,14 @@ class Model(bfs.Model):
                 prob = uniq_problem(ids, what)
                 if prob:
                     acc.fail(f'{what}_id_{prob[0]}', case, f'history={history}\n vmf{vi}: {prob[1]}', part=self.part, op=lastop)
+            # the inductive half of uniqueness: allocation consults only the pool, so an ID held by an object in the map that the pool
+            # has forgotten is handed out again by the next request for it
+            pools = {'entity': vmf.ent_id, 'brush': vmf.solid_id, 'face': vmf.face_id, 'node': vmf.node_id, 'group': vmf.group_id, 'visgroup': vmf.vis_id}
+            for what, ids in sets:
+                lost = sorted(i for i in set(ids) if isinstance(i, int) and i > 0 and i not in pools[what]._used)
+                if lost:
+                    acc.fail(f'{what}_pool_forgot_live_id', case, f'history={history}\n vmf{vi}: {what} IDs {lost} are held by objects in the map but '
+                             f'marked free in the allocator (used: {sorted(pools[what]._used)[:20]}): the next request for one duplicates it', part=self.part, op=lastop)
             for gid, g in vmf.groups.items():
                 if gid != g.id:
                     acc.fail('group_key_mismatch', case, f'history={history}\n vmf{vi}.groups[{gid}].id == {g.id}', part=self.part, op=lastop)
@@ -535,7 +569,73 @@ class Model(bfs.Model):
         acc.outcome(repr(self.canon(st)[0][:11])[:160])
 
 
-PARTS = {'ent': (3, 5, 6), 'solid': (3, 4, 5), 'group': (3, 5, 6), 'fixup': (2, 4, 5)}   # maxh, quick depth, thorough depth
+# ---------------------------------------------------------------------------------------------
+# counts: pools that already hold more than a thousand consecutive IDs
+
+BIG_OPS = [['remove', 3], ['remove', 'mid'], ['remove', 'last'], ['create'], ['create_des', 4], ['create_sparse']]
+
+
+def big_pool_shard(spec) -> core.Acc:
+    """Every history of <= depth operations on a map that starts with `n` entities (and brushes) holding consecutive IDs, optionally
+    with one more at ID n+3 (a gap of one below it).  Same invariant as the small models."""
+    n, sparse, first, depth = spec
+    acc = core.Acc()
+    for d in range(1, depth + 1):
+        for tail in itertools.product(BIG_OPS, repeat=d - 1):
+            hist = [first] + [list(t) for t in tail]
+            acc.evaluations += 1
+            acc.nontrivial += 1
+            case = {'big_pool': n, 'sparse': sparse, 'history': hist}
+            vmf = VMF()
+            ents = [vmf.create_ent('a') for _ in range(n)]
+            for _ in range(n // 8):
+                vmf.add_brush(vmf.make_prism(Vec(0, 0, 0), Vec(8, 8, 8)).solid)
+            if sparse:
+                e = Entity(vmf, {'classname': 'b'}, ent_id=len(vmf.ent_id._used) + 2)
+                vmf.add_ent(e)
+                ents.append(e)
+            try:
+                for op in hist:
+                    if op[0] == 'remove':
+                        i = {'mid': len(ents) // 2, 'last': len(ents) - 1}.get(op[1], op[1])
+                        if i < len(ents):
+                            victim = ents.pop(i)
+                            victim.remove()
+                            if vmf.brushes:
+                                vmf.remove_brush(vmf.brushes[min(i, len(vmf.brushes) - 1)])
+                            del victim
+                            gc.collect(0)
+                    elif op[0] == 'create':
+                        ents.append(vmf.create_ent('a'))
+                        vmf.add_brush(vmf.make_prism(Vec(0, 0, 0), Vec(8, 8, 8)).solid)
+                    elif op[0] == 'create_des':
+                        e = Entity(vmf, {'classname': 'a'}, ent_id=op[1])
+                        vmf.add_ent(e)
+                        ents.append(e)
+                    elif op[0] == 'create_sparse':
+                        e = Entity(vmf, {'classname': 'a'}, ent_id=max(vmf.ent_id._used) + 2)
+                        vmf.add_ent(e)
+                        ents.append(e)
+            except Exception as exc:  # noqa: BLE001
+                acc.fail('op_raised', case, f'map with {n} entities, history={hist}: {type(exc).__name__}: {exc}', part='big')
+                continue
+            for what, ids, pool in (('entity', [e.id for e in vmf.entities] + [vmf.spawn.id], vmf.ent_id),
+                                    ('brush', [s.id for s in vmf.brushes], vmf.solid_id),
+                                    ('face', [f.id for s in vmf.brushes for f in s.sides], vmf.face_id)):
+                prob = uniq_problem(ids, what)
+                if prob:
+                    acc.fail(f'{what}_id_{prob[0]}', case, f'map that starts with {n} {what} IDs{" and one above a gap" if sparse else ""}, history={hist}: {prob[1][:300]}', part='big')
+                    break
+                lost = sorted(i for i in set(ids) if i not in pool._used)
+                if lost:
+                    acc.fail(f'{what}_pool_forgot_live_id', case, f'map that starts with {n} {what} IDs, history={hist}: IDs {lost[:10]} held in the map but free in the allocator', part='big')
+                    break
+            acc.outcome(('big', len(vmf.entities) - n))
+            del ents, vmf
+    return acc
+
+
+PARTS = {'ent': (3, 4, 5), 'solid': (3, 4, 5), 'group': (3, 5, 6), 'fixup': (2, 4, 5)}   # maxh, quick depth, thorough depth
 
 
 def run(ctx: core.Ctx) -> None:
@@ -550,6 +650,18 @@ def run(ctx: core.Ctx) -> None:
         tot['transitions'] += res['transitions']
         detail[part] = {'depth': res['depth_completed'], 'states_per_level': res['per_level'], 'transitions': res['transitions']}
         gc.collect()
+        if part == 'ent':
+            # one level deeper over the core operations (creation, removal, re-adding, dropping, copying, node numbers, collapsing)
+            a = core.Acc()
+            res = bfs.explore(Model(part, maxh, core_only=True), a, ctx.pick(dq, dt) + 1)
+            ctx.acc.merge(a)
+            tot['states'] += res['states']
+            tot['transitions'] += res['transitions']
+            detail['ent_core_ops'] = {'depth': res['depth_completed'], 'states_per_level': res['per_level'], 'transitions': res['transitions']}
+            gc.collect()
+    big = [(n, sparse, first, ctx.pick(3, 4)) for n in ((1100, 2100) if ctx.quick else (1100, 2100, 5000)) for sparse in (False, True) for first in BIG_OPS]
+    core.par_map(big_pool_shard, big, ctx.acc)
+    detail['big_pools'] = {'start_sizes': sorted({b[0] for b in big}), 'depth': big[0][3], 'operations': len(BIG_OPS)}
     ctx.coverage_extra.update({'states': tot['states'], 'transitions': tot['transitions'],
                                'traces_validated_against_impl': tot['transitions'], 'sub_models': detail})
     ctx.acc.sample({'part': 'ent', 'history': [['create'], ['remove', 0], ['create'], ['drop', 0], ['create']]})
@@ -561,12 +673,16 @@ def run(ctx: core.Ctx) -> None:
                 'EntityGroup creation with desired ids, children, copies; fixup = construction with colliding / zero / negative '
                 'indexes, set, delete, update, clear, copy, copy_values(), export+parse.  Invariant in every state: IDs of objects '
                 'in the map pairwise distinct positive ints per kind; fixup indexes of each entity likewise.  Every transition '
-                'is an execution of the real code.  Non-trivial = the maps hold more than two ID-carrying objects.')
+                'is an execution of the real code.  Plus every history of <= 3 (thorough 4) of 6 operations (remove low / middle / last, create, create with a wanted low ID, create above a gap) on maps that start with 1100 / 2100 (thorough also 5000) consecutive IDs.  Non-trivial = the maps hold more than two ID-carrying objects.')
 
 
 def replay(case: dict) -> list:
+    if 'big_pool' in case:
+        hist = case['history']
+        sub = big_pool_shard((case['big_pool'], case['sparse'], hist[0], len(hist)))
+        return [f for f in sub.all_failures() if f.case.get('history') == hist]
     part = case['part']
-    model = Model(part, PARTS[part][0])
+    model = Model(part, PARTS[part][0])      # (the full alphabet: histories of the core-operation pass are histories of it too)
     acc = core.Acc()
     hist = case['history']
     for i in range(len(hist) + 1):
